@@ -496,7 +496,7 @@ pub fn render(t: &mut Tape, plan: &FlatPlan, core_only: bool) -> E2Case {
     // ---- run ----------------------------------------------------------------------------------
     let mut r = String::new();
     if core_only {
-        r.push_str("pub fn run() {\n");
+        r.push_str("fn same<T>(_a: &T, _b: &T) {}\npub fn run() {\n");
     } else {
         r.push_str("fn chk<T: core::fmt::Debug + PartialEq>(out: &mut Vec<String>, fl: &str, got: &T, want: &T) { if got == want { out.push(format!(\"{} OK\", fl)); } else { out.push(format!(\"{} MISMATCH got={:?} want={:?}\", fl, got, want)); } }\n");
         r.push_str("pub fn run(out: &mut Vec<String>) {\n");
@@ -521,7 +521,7 @@ pub fn render(t: &mut Tape, plan: &FlatPlan, core_only: bool) -> E2Case {
             _ => unreachable!(),
         };
         if core_only {
-            let _ = write!(r, "    {{ {} let _ = (got, want); }}\n", stmt);
+            let _ = write!(r, "    {{ {} same(&got, &want); }}\n", stmt);
         } else {
             let _ = write!(r, "    {{ {} chk(out, \"{}\", &got, &want); }}\n", stmt, basic_name(k, f));
         }
